@@ -588,6 +588,7 @@ theorem step_Inv (cfg : Cfg) (e : Ev) {s : St} (h : Inv C cfg.side F s) :
     have h' : Inv C cfg.side (F ++ frames [Ev.rx f]) s := PK_mono hm h
     exact wsMessage_Inv cfg f h' (by simp [frames])
   | connected => exact PK_mono hm (liftLo_Inv _ h)
+  | lost => exact PK_mono hm (liftLo_Inv _ h)
   | claimed => exact PK_mono hm (liftLo_Inv _ h)
   | mclosed => exact PK_mono hm (liftLo_Inv _ h)
   | send pt => exact PK_mono hm (bossInput_Inv cfg _ _ h trivial)
